@@ -392,3 +392,112 @@ func (p *Program) fieldNeverStored(field string, val bool) bool {
 	}
 	return true
 }
+
+// R-UNFOLD-AFTER-GATE (C09, C08): Unfold relies on contractive definitions, so nothing below
+// the typechecking entry point may reach it before the contractivity gate has passed.
+func init() {
+	register(&Rule{Name: "R-UNFOLD-AFTER-GATE", Min: 2,
+		Doc: "from the typechecking entry point down to the function that holds the contractivity test, every call through which types.Unfold (the environment-following recursion without a visited set) is reachable is made on the nil edge of the call that leads to the gate: an environment built eagerly before the preliminary checks unfolds a cyclic definition and overflows the stack instead of reporting it",
+		Run: runUnfoldAfterGate})
+}
+
+func runUnfoldAfterGate(p *Program, r *RuleResult) {
+	gate := p.Func(typesPkg, "SanityChecksTypeDefinitions")
+	unfold := p.Func(typesPkg, "Unfold")
+	d := findTypecheckDriver(p)
+	reachMemo := map[*ssa.Function]map[*ssa.Function]bool{}
+	reaches := func(from, to *ssa.Function) bool {
+		if from == nil {
+			return false
+		}
+		if from == to {
+			return true
+		}
+		m, ok := reachMemo[from]
+		if !ok {
+			m = p.reachableFuncs([]*ssa.Function{from}, useCHA)
+			reachMemo[from] = m
+		}
+		return m[to]
+	}
+	calleesOf := func(c ssa.CallInstruction) []*ssa.Function {
+		g := p.VTA()
+		if useCHA {
+			g = p.CHA()
+		}
+		return p.Callees(g, c)
+	}
+	n := 0
+	seen := map[*ssa.Function]bool{}
+	var visit func(fn *ssa.Function)
+	visit = func(fn *ssa.Function) {
+		if seen[fn] || fn == gate || fn.Blocks == nil {
+			return
+		}
+		seen[fn] = true
+		view := p.View(fn)
+		var gateCalls []ssa.CallInstruction
+		for _, c := range p.callsIn(fn) {
+			for _, callee := range calleesOf(c) {
+				if reaches(callee, gate) {
+					gateCalls = append(gateCalls, c)
+				}
+			}
+		}
+		if len(gateCalls) == 0 {
+			return
+		}
+		isGateCall := func(c ssa.CallInstruction) bool {
+			for _, g := range gateCalls {
+				if g == c {
+					return true
+				}
+			}
+			return false
+		}
+		ord := 0
+		for _, c := range p.callsIn(fn) {
+			if isGateCall(c) {
+				continue
+			}
+			toUnfold := false
+			for _, callee := range calleesOf(c) {
+				if reaches(callee, unfold) {
+					toUnfold = true
+				}
+			}
+			if !toUnfold {
+				continue
+			}
+			n++
+			ord++
+			what := "dynamic call"
+			if sc := c.Common().StaticCallee(); sc != nil {
+				what = sc.Name()
+			}
+			construct := fmt.Sprintf("unfold-reaching-call#%d:%s", ord, what)
+			after := false
+			for _, g := range gateCalls {
+				gv, isVal := g.(*ssa.Call)
+				if isVal && view.holdsAt(c.Block(), gv, factNil) {
+					after = true
+				}
+			}
+			if after {
+				r.add(fnName(fn), construct, Holds, p.instrPos(c), "made on the nil edge of the call that leads to the contractivity gate")
+			} else {
+				r.add(fnName(fn), construct, Violated, p.instrPos(c),
+					fmt.Sprintf("%s can reach types.Unfold, but it is not made after the call leading to the contractivity gate returned nil: on a cyclic type definition (type A = B; type B = A) Unfold recurses until the stack overflows, which kills the host process", what))
+			}
+		}
+		for _, g := range gateCalls {
+			for _, callee := range calleesOf(g) {
+				if reaches(callee, gate) {
+					visit(callee)
+				}
+			}
+		}
+	}
+	visit(d.Entry)
+	r.count("calls reaching Unfold on the way to the gate", n)
+}
